@@ -78,13 +78,17 @@ func caseVariant(t *rapid.T, w string, label string) string {
 
 var plainChunks = []string{"a", "Z", "0", " ", "  ", "x y", "select", "FROM", "--", "/*", "*/", "#", "$", "$$", "\"", "`", ";", ",", "(", "%", "_", "é", "名", "𝄞", "\t", "@", "?", ":", ".", "’", "‘", "“hi”", "«", "»"}
 
+var unicodeEscapes = []struct{ src, val string }{
+	{`\u0041`, "A"}, {`\u00e9`, "é"}, {`\u00E9`, "é"}, {`\u540d`, "名"}, {`\u0027`, "'"}, {`\u005C`, "\\"}, {`\u2019`, "’"}, {`\u0020`, " "},
+}
+
 // GenString draws a single-quoted literal.
 func GenString(t *rapid.T, f Features) Lexeme {
 	n := rapid.IntRange(0, 6).Draw(t, "strparts")
 	var src, val strings.Builder
 	src.WriteByte('\'')
 	for i := 0; i < n; i++ {
-		k := rapid.IntRange(0, 13).Draw(t, "strpart")
+		k := rapid.IntRange(0, 14).Draw(t, "strpart")
 		switch k {
 		case 0:
 			if i == 0 && !f.StringStartsWithDoubledQuote {
@@ -118,6 +122,11 @@ func GenString(t *rapid.T, f Features) Lexeme {
 		case 8:
 			src.WriteString("\n")
 			val.WriteString("\n")
+		case 9:
+			// the documented \uXXXX escape (tokenizer/doc.go): four hex digits, either case
+			u := rapid.SampledFrom(unicodeEscapes).Draw(t, "uescape")
+			src.WriteString(u.src)
+			val.WriteString(u.val)
 		default:
 			c := rapid.SampledFrom(plainChunks).Draw(t, "chunk")
 			src.WriteString(c)
